@@ -6,6 +6,7 @@ import (
 	"fmt"
 	"io"
 	"sync"
+	"time"
 
 	mcap "github.com/foxglove/mcap/go/mcap"
 
@@ -118,6 +119,9 @@ func tokPrefix(got, want []gow.Tok) string {
 			if g.Att.LogTime != w.Att.LogTime || g.Att.CreateTime != w.Att.CreateTime || g.Att.Name != w.Att.Name || g.Att.MediaType != w.Att.MediaType {
 				return fmt.Sprintf("attachment token %d has different fields", i)
 			}
+			if g.Declared != w.Declared {
+				return fmt.Sprintf("attachment token %d declares %d data bytes, the intact file's declares %d", i, g.Declared, w.Declared)
+			}
 			if !bytes.HasPrefix(w.Att.Data, g.Att.Data) {
 				return fmt.Sprintf("attachment token %d exposes different data bytes", i)
 			}
@@ -171,6 +175,19 @@ func triplePrefix(got, want []gow.Triple) string {
 	return ""
 }
 
+// lexWatched runs a lexer read under a watchdog: a read that neither returns nor fails within the
+// limit is reported as a hang (the goroutine is abandoned).
+func lexWatched(r io.Reader, lo gow.LexOpts, limit time.Duration) (*gow.LexResult, bool) {
+	ch := make(chan *gow.LexResult, 1)
+	go func() { ch <- gow.Lex(r, lo) }()
+	select {
+	case res := <-ch:
+		return res, true
+	case <-time.After(limit):
+		return nil, false
+	}
+}
+
 type plainReader struct{ r io.Reader }
 
 func (p plainReader) Read(b []byte) (int, error) { return p.r.Read(b) }
@@ -191,7 +208,7 @@ func c09Body(nWork int) explore.Body {
 		}
 		ctxs := fmt.Sprintf(" — cut %d/%d — %s — %s", cut, len(f.bytes), f.cfg, f.c)
 		need := msgsInCompleteChunks(f.dec, cut)
-		for _, validate := range []bool{false, true} {
+		for vi, validate := range []bool{false, true, false} {
 			for _, seekable := range []bool{true, false} {
 				mk := func(b []byte) io.Reader {
 					if seekable {
@@ -199,11 +216,14 @@ func c09Body(nWork int) explore.Body {
 					}
 					return plainReader{bytes.NewReader(b)}
 				}
-				lo := gow.LexOpts{Validate: validate, AttCRC: true}
+				lo := gow.LexOpts{Validate: validate, AttCRC: true, NoAttCallback: vi == 2}
 				full := gow.Lex(mk(f.bytes), lo)
 				lo.Limit = len(full.Toks) + 8
-				got := gow.Lex(mk(data), lo)
-				what := fmt.Sprintf("lexer(validate=%v,seekable=%v)", validate, seekable)
+				got, finished := lexWatched(mk(data), lo, 20*time.Second)
+				what := fmt.Sprintf("lexer(validate=%v,seekable=%v,attachment callback=%v)", validate, seekable, vi != 2)
+				if !finished {
+					return vio("C09:lexer-hang", "%s neither returned end-of-file nor an error within 20 s%s", what, ctxs)
+				}
 				if got.Panic != "" {
 					return vio("C09:lexer-panic", "%s panicked: %s%s", what, got.Panic, ctxs)
 				}
@@ -251,7 +271,7 @@ func C09(r *chk.Run) {
 	if r.Thorough() {
 		n = 3
 	}
-	r.Rule("crash points: every cut position 0..len-1 of every file of {workloads with several chunks, attachment and metadata between chunks} x {unchunked, none/64, zstd/64, lz4/64} x {CRC on, off}; each prefix read through the lexer (validation on/off, seekable and non-seekable source) and the non-indexed iterator; distinct = distinct prefixes")
+	r.Rule("crash points: every cut position 0..len-1 of every file of {workloads with several chunks, attachment and metadata between chunks} x {unchunked, none/64, zstd/64, lz4/64} x {CRC on, off}; each prefix read through the lexer (validation on/off, with and without attachment callback, seekable and non-seekable source, 20 s watchdog) and the non-indexed iterator; distinct = distinct prefixes")
 	r.Assume("the lower bound demanded is the one the property states: every message of every chunk whose record ends at or before the cut")
 	r.Assume("the sink-side statement (the sink always holds a prefix of the final file) is checked after every individual Write by C14's fault-free and faulty runs")
 	r.Phase("cuts", c09Body(n), chk.PhaseOpts{Bound: 1, SplitLen: 3})
@@ -307,10 +327,11 @@ const (
 	rkIndexedLog
 	rkIndexedReverse
 	rkInfo
+	rkLexerNoCallback
 	nReaderKinds
 )
 
-var readerKindNames = []string{"lexer", "lexer(validate)", "unindexed iterator", "indexed iterator(file order)", "indexed iterator(log time)", "indexed iterator(reverse)", "Info"}
+var readerKindNames = []string{"lexer", "lexer(validate)", "unindexed iterator", "indexed iterator(file order)", "indexed iterator(log time)", "indexed iterator(reverse)", "Info", "lexer(no attachment callback)"}
 
 // readOutcome is what one reader delivered from one source.
 type readOutcome struct {
@@ -325,8 +346,12 @@ type readOutcome struct {
 func runReader(kind readerKind, src io.Reader, limit int) *readOutcome {
 	o := &readOutcome{}
 	switch kind {
-	case rkLexer, rkLexerValidate:
-		lr := gow.Lex(src, gow.LexOpts{Validate: kind == rkLexerValidate, AttCRC: true, Limit: limit})
+	case rkLexer, rkLexerValidate, rkLexerNoCallback:
+		lr, finished := lexWatched(src, gow.LexOpts{Validate: kind == rkLexerValidate, AttCRC: true, NoAttCallback: kind == rkLexerNoCallback, Limit: limit}, 20*time.Second)
+		if !finished {
+			o.panic = "hang: the lexer neither returned nor failed within 20 s"
+			return o
+		}
 		o.toks, o.err, o.panic = lr.Toks, lr.Err, lr.Panic
 	case rkUnindexed, rkIndexedFile, rkIndexedLog, rkIndexedReverse:
 		opts := []mcap.ReadOpt{mcap.UsingIndex(kind != rkUnindexed)}
@@ -388,8 +413,11 @@ func c15Body(nWork int, bound int) explore.Body {
 		f := chooseFile(x, nWork, rfModes, false)
 		kind := readerKind(x.Choose("cfg", int(nReaderKinds)))
 		seekable := kind >= rkIndexedFile
-		if kind == rkUnindexed || kind == rkLexer {
+		if kind == rkUnindexed || kind == rkLexer || kind == rkLexerNoCallback {
 			seekable = x.Bool("cfg")
+		}
+		if kind == rkLexerNoCallback {
+			seekable = seekable && false // the skip path of interest is the non-seekable one
 		}
 		pol := env.Policy(x.Choose("cfg", int(env.NPolicies)))
 		src := env.NewSource(x, f.bytes, pol)
@@ -458,7 +486,7 @@ func C15(r *chk.Run) {
 	if r.Thorough() {
 		n, bound = 3, 1
 	}
-	r.Rule("files {workloads} x {unchunked, none, zstd, lz4}; 7 readers (lexer, validating lexer, non-indexed iterator, indexed iterator in 3 orders, Info); delivery policies full / 1-byte / halving / 7-byte / data+EOF / a short read (1 or n-1 bytes) at every k-th Read call; an injected non-EOF error at every byte position 0..len and at every k-th Seek, sticky and one-shot; deviation bound on (short read, error) combinations as reported per phase")
+	r.Rule("files {workloads} x {unchunked, none, zstd, lz4}; 8 readers (lexer, validating lexer, lexer without attachment callback, non-indexed iterator, indexed iterator in 3 orders, Info); delivery policies full / 1-byte / halving / 7-byte / data+EOF / a short read (1 or n-1 bytes) at every k-th Read call; an injected non-EOF error at every byte position 0..len and at every k-th Seek, sticky and one-shot; deviation bound on (short read, error) combinations as reported per phase")
 	r.Assume("an injected error that the reader only met through read-ahead (results complete and correct) is not a violation; the property forbids loss, i.e. a clean end with records missing")
 	r.Phase("delivery-and-errors", c15Body(n, bound), chk.PhaseOpts{Bound: bound, SplitLen: 5})
 	if r.Thorough() && r.TimeLeft() {
